@@ -41,6 +41,7 @@ def run(ctx):
     wire_agg(ctx, facts)
     pipeline(ctx, facts)
     sat_merge(ctx, facts)
+    partial_nonzero(ctx, facts)
     ctx.assume("integer_add / sharded shuffle / OPRF / breakdown-reveal aggregation compute what their names say (C07, C05, C19 and the not-decided numerical part)")
     ctx.assume("end-to-end equality of the histogram with the plaintext reference is not decided")
 
@@ -331,3 +332,37 @@ def sat_merge(ctx, facts):
             e = str(flow.expr_of(b, st["r"]["o"], max_depth=40))
             okw = "integer_sat_add" in e and "Try::branch" in e
     ctx.ob("SAT-merge", "result-stored", okw, "self.values = sum" if okw else "the saturated sum is not stored back into self.values (the merge has no effect or stores something else)", site_of(b))
+
+
+# ---------------------------------------------------------------------------------------------
+def partial_nonzero(ctx, facts):
+    """Vectorised stages (PRF evaluation, aggregation) process rows in fixed-size chunks; the last chunk says how many
+    of its rows are real.  A `Partial(0)` chunk would mean "a chunk with no real rows" and its rows (all of them, if it
+    was in fact full) silently vanish from the pipeline: every construction must be behind a guard k != 0."""
+    ctx.rule("RANGE-partial: every non-test construction of ChunkType::Partial(k) is dominated by a branch edge that establishes k != 0 for that very expression (k seen through mem::replace(k, _))")
+    n = 0
+    for b in sorted(facts.non_test_bodies(), key=lambda x: x.path):
+        dom = None
+        for bb, idx, s in b.iter_assigns():
+            r = s["r"]
+            if not (r["k"] == "agg" and (r.get("adt") or "").endswith("chunks::ChunkType") and r.get("vn") == "Partial"):
+                continue
+            n += 1
+            dom = dom or b.dominators()
+            k = flow.strip_casts(flow.expr_of(b, r["ops"][0], max_depth=12))
+            if k[0] == "call" and k[1].endswith("mem::replace"):
+                k = flow.strip_casts(k[2][0])
+            if k[0] == "const" and isinstance(k[1], int):
+                ok = k[1] != 0
+            else:
+                def nz(f):
+                    op, l, rr = f
+                    if l == k and rr is not None and rr[0] == "const" and isinstance(rr[1], int):
+                        return (op == "Ne" and rr[1] == 0) or (op == "Gt" and rr[1] >= 0) or (op == "Ge" and rr[1] >= 1)
+                    if rr == k and l is not None and l[0] == "const" and isinstance(l[1], int):
+                        return (op == "Ne" and l[1] == 0) or (op == "Lt" and l[1] >= 0) or (op == "Le" and l[1] >= 1)
+                    return False
+                ok = flow.holds(b, dom, bb, nz)
+            inst = f"{b.path.split('::')[-2] if b.path.endswith('}') else b.path.split('::')[-1]}@{b.path.split('::')[-1]}"
+            ctx.ob("RANGE-partial", f"nonzero:{inst}", ok, "Partial(k) only behind k != 0" if ok else f"ChunkType::Partial(k) can be built with k == 0 (k = {str(k)[:120]}): a chunk that is in fact full, or empty, is labelled as holding no valid rows and its rows are dropped without an error", site_of(b, bb, idx))
+    ctx.floor("RANGE-partial", "ChunkType::Partial constructions outside tests", n, 3)
